@@ -396,10 +396,18 @@ def gen_wrap_max_line_length(repo):
     if not m:
         _stop("Config::from: `max_line_length: if opt.side_by_side { wrap_config.config_max_line_length(a, b) } else { c }` not found")
     a1, a2, a3 = m.group(1), m.group(2), m.group(3)
-    known = {"opt.max_line_length": "optMaxLineLength", "opt.computed.available_terminal_width": "availableTerminalWidth"}
-    for a in (a1, a2, a3):
-        if a not in known:
-            _stop("Config::from passes %r to config_max_line_length (known: %s)" % (a, ", ".join(known)))
+    if a1 != "opt.max_line_length" or a3 != "opt.max_line_length":
+        _stop("Config::from passes %r / falls back to %r (expected opt.max_line_length)" % (a1, a3))
+    # the width argument: the terminal width (code as pinned), or the width the panels are derived from
+    # (notes/fix-sbs-max-line-length-width.diff: `--width N` => N, else the terminal width, as in new_sbs)
+    if a2 == "opt.computed.available_terminal_width":
+        width_arg, uses_view = "availableTerminalWidth", False
+    elif a2 == "side_by_side_width" and re.search(
+            r"let side_by_side_width = match opt\.computed\.decorations_width \{\s*cli::Width::Fixed\((\w+)\) => \1,\s*"
+            r"(?:cli::Width::Variable|_) => opt\.computed\.available_terminal_width,\s*\};", cfg):
+        width_arg, uses_view = "(match fixedWidth with | some w => w | none => availableTerminalWidth)", True
+    else:
+        _stop("Config::from passes %r as the width to config_max_line_length (unknown)" % a2)
     if len(names) != 2:
         _stop("config_max_line_length no longer takes two usize arguments")
     if not re.search(r"let wrap_config = WrapConfig::from_opt\(&opt, [^;]*\);", cfg):
@@ -428,10 +436,18 @@ def gen_wrap_max_line_length(repo):
             "    (`match` = first arm that applies). `maxLines` = `self.max_lines`. `usize` as `Nat`: equal as long as\n"
             "    no intermediate value exceeds `usize::MAX`. -/\n")
     out += "def configMaxLineLength (%s : Nat) : Nat :=\n  %s\n\n" % (" ".join(lean_params), body.lstrip("\n "))
+    out += ("/-- The width `Config::from` hands to `config_max_line_length` (`%s`). `fixedWidth` = `Some(N)` for\n"
+            "    `opt.computed.decorations_width = Width::Fixed(N)` (`--width N`, or no `--width`: then N = the terminal width),\n"
+            "    `none` for `--width variable`. -/\n" % a2)
+    out += "def maxLenWidthArg (availableTerminalWidth : Nat) (fixedWidth : Option Nat) : Nat :=\n  %s\n\n" % width_arg
+    out += "/-- does that width follow `--width` (the panels do: `SideBySideData::new_sbs`)? -/\n"
+    out += "def maxLenUsesViewWidth : Bool := %s\n\n" % ("true" if uses_view else "false")
     out += ("/-- `Config::from` (src/config.rs): `max_line_length: if opt.side_by_side {\n"
             "    wrap_config.config_max_line_length(%s, %s) } else { %s }` -/\n" % (a1, a2, a3))
-    out += ("def configMaxLen (sideBySide : Bool) (maxLines optMaxLineLength availableTerminalWidth : Nat) : Nat :=\n"
-            "  if sideBySide then configMaxLineLength maxLines %s %s else %s\n\n" % (known[a1], known[a2], known[a3]))
+    out += ("def configMaxLen (sideBySide : Bool) (maxLines optMaxLineLength availableTerminalWidth : Nat)\n"
+            "    (fixedWidth : Option Nat) : Nat :=\n"
+            "  if sideBySide then configMaxLineLength maxLines optMaxLineLength (maxLenWidthArg availableTerminalWidth fixedWidth)\n"
+            "  else optMaxLineLength\n\n")
     out += ("/-- `adapt_wrap_max_lines_argument`: `WrapConfig.max_lines` for `--wrap-max-lines unlimited` (also `∞`, `inf…`) -/\n"
             "def wrapMaxLinesUnlimited : Nat := %d\n" % unlimited)
     out += ("/-- `adapt_wrap_max_lines_argument`: `WrapConfig.max_lines` = argument + this -/\n"
